@@ -50,72 +50,87 @@ abbrev Rows := List (List Char × Nat)
 def rowIdx (rows : Rows) (label : List Char) : Option Nat :=
   idxOf (fun r => lower r.1 == lower label) rows 0
 
-def addCells (rows : Rows) (i n : Nat) : Rows :=
-  rows.mapIdx (fun j r => if j == i then (r.1, r.2 + n) else r)
+/-- what a line reader can end with besides a matrix: a parse error of the library, or `internal` — an index that is
+not there (Python's `IndexError` on `taxon_namespace[paged_row]`, or a row the model would have lost track of).
+`Props/C20.lean` shows `internal` unreachable. -/
+inductive LErr where
+  | parse (e : PErr)
+  | internal (w : String)
+
+/-- `seq.extend(states)` on row `i`; an index out of range is an error, never a silent no-op -/
+def addCells (rows : Rows) (i n : Nat) : Except LErr Rows :=
+  if i < rows.length then .ok (rows.mapIdx (fun j r => if j == i then (r.1, r.2 + n) else r))
+  else .error (.internal "row index out of range")
+
+/-- `len(self.char_matrix[taxon])` -/
+def cellsAt (rows : Rows) (i : Nat) : Except LErr Nat :=
+  match rows[i]? with
+  | some r => .ok r.2
+  | none => .error (.internal "row index out of range")
+
+def lperr {α : Type} (e : PErr) : Except LErr α := .error (.parse e)
 
 /-- `_parse_taxon_from_line`: returns the row index, the updated rows and the rest of the line -/
-def phyTaxon (strict : Bool) (ntax nchar : Nat) (rows : Rows) (line : List Char) : Except PErr (Nat × Rows × List Char) :=
+def phyTaxon (strict : Bool) (ntax nchar : Nat) (rows : Rows) (line : List Char) : Except LErr (Nat × Rows × List Char) :=
   let (lab, rest) := if strict then (strip (line.take 10), line.drop 10) else
     let p := splitLabel line
     (strip p.1, p.2)
-  if lab.isEmpty then .error .data
+  if lab.isEmpty then lperr .data
   else
     match rowIdx rows lab with
-    | some i =>
-      if (rows.getD i ([], 0)).2 ≥ nchar then .error .data      -- already has the declared number of characters
-      else .ok (i, rows, rest)
+    | some i => do
+      let have_ ← cellsAt rows i
+      if have_ ≥ nchar then lperr .data      -- already has the declared number of characters
+      else pure (i, rows, rest)
     | none =>
       let rows' := rows ++ [(lab, 0)]
-      if rows'.length > ntax then .error .data                    -- more taxa than declared
-      else .ok (rows.length, rows', rest)
+      if rows'.length > ntax then lperr .data                    -- more taxa than declared
+      else pure (rows.length, rows', rest)
 
 /-- `_parse_sequence_from_line` for discrete data: number of cells, or an invalid state symbol -/
-def phyCells (sym : Char → Bool) (line : List Char) : Except PErr Nat :=
+def phyCells (sym : Char → Bool) (line : List Char) : Except LErr Nat :=
   let cs := line.filter (fun c => !isBlankTab c)
-  if cs.all sym then .ok cs.length else .error .data
+  if cs.all sym then pure cs.length else lperr .data
 
-def phySequential (sym : Char → Bool) (strict : Bool) (ntax nchar : Nat) : List (List Char) → Rows → Option Nat → Except PErr Rows
-  | [], rows, _ => .ok rows
+def phySequential (sym : Char → Bool) (strict : Bool) (ntax nchar : Nat) : List (List Char) → Rows → Option Nat → Except LErr Rows
+  | [], rows, _ => pure rows
   | line :: ls, rows, cur =>
     let line := rstrip line
     if line.isEmpty then phySequential sym strict ntax nchar ls rows cur
-    else
-      let r : Except PErr (Nat × Rows × List Char) := match cur with
-        | some i => .ok (i, rows, line)
-        | none => phyTaxon strict ntax nchar rows line
-      match r with
-      | .error e => .error e
-      | .ok (i, rows, line) =>
-        match phyCells sym line with
-        | .error e => .error e
-        | .ok n =>
-          let rows := addCells rows i n
-          phySequential sym strict ntax nchar ls rows (if (rows.getD i ([], 0)).2 ≥ nchar then none else some i)
+    else do
+      let (i, rows, line) ← (match cur with
+        | some i => pure (i, rows, line)
+        | none => phyTaxon strict ntax nchar rows line : Except LErr (Nat × Rows × List Char))
+      let n ← phyCells sym line
+      let rows ← addCells rows i n
+      let have_ ← cellsAt rows i
+      phySequential sym strict ntax nchar ls rows (if have_ ≥ nchar then none else some i)
 
-/-- `_parse_interleaved`: once all declared taxa have been named, rows are assigned cyclically (`paged`) -/
-def phyInterleaved (sym : Char → Bool) (strict : Bool) (ntax nchar : Nat) : List (List Char) → Rows → Bool → Int → Except PErr Rows
-  | [], rows, _, _ => .ok rows
+/-- `_parse_interleaved`: once all declared taxa have been named, rows are assigned cyclically (`paged`);
+`taxon_namespace[paged_row]` is a list index -/
+def phyInterleaved (sym : Char → Bool) (strict : Bool) (ntax nchar : Nat) : List (List Char) → Rows → Bool → Int → Except LErr Rows
+  | [], rows, _, _ => pure rows
   | line :: ls, rows, paged, pagedRow =>
     let line := rstrip line
     if line.isEmpty then phyInterleaved sym strict ntax nchar ls rows paged pagedRow
     else
       let pagedRow := if pagedRow + 1 ≥ (ntax : Int) then 0 else pagedRow + 1
-      if paged then
-        match phyCells sym line with
-        | .error e => .error e
-        | .ok n => phyInterleaved sym strict ntax nchar ls (addCells rows pagedRow.toNat n) paged pagedRow
-      else
-        match phyTaxon strict ntax nchar rows line with
-        | .error e => .error e
-        | .ok (i, rows, line) =>
-          let nowPaged := rows.length == ntax
-          match phyCells sym line with
-          | .error e => .error e
-          | .ok n => phyInterleaved sym strict ntax nchar ls (addCells rows i n) nowPaged (if nowPaged then -1 else pagedRow)
+      if paged then do
+        if pagedRow < 0 then .error (.internal "negative row index") else
+        let n ← phyCells sym line
+        let rows ← addCells rows pagedRow.toNat n
+        phyInterleaved sym strict ntax nchar ls rows paged pagedRow
+      else do
+        let (i, rows, line) ← phyTaxon strict ntax nchar rows line
+        let nowPaged := rows.length == ntax
+        let n ← phyCells sym line
+        let rows ← addCells rows i n
+        phyInterleaved sym strict ntax nchar ls rows nowPaged (if nowPaged then -1 else pagedRow)
 
 inductive MatRes where
   | ok (rows : Rows)
   | err (e : PErr)
+  | internal (w : String)
 
 /-- `PhylipReader._read` (repaired: every row must have exactly the declared number of characters) -/
 def readPhylip (sym : Char → Bool) (strict interleaved : Bool) (text : List Char) : MatRes :=
@@ -133,15 +148,16 @@ def readPhylip (sym : Char → Bool) (strict interleaved : Bool) (text : List Ch
           let r := if interleaved then phyInterleaved sym strict ntax nchar body [] false (-1)
                    else phySequential sym strict ntax nchar body [] none
           match r with
-          | .error e => .err e
+          | .error (.parse e) => .err e
+          | .error (.internal w) => .internal w
           | .ok rows =>
             if rows.length != ntax then .err .data                      -- `_taxon_error`
             else if rows.all (fun r => r.2 == nchar) then .ok rows      -- the declared-versus-found check
             else .err .data
 
 /-- `FastaReader._read`.  `cur` = index of the row being filled (`curr_vec`). -/
-def fastaLines (sym : Char → Bool) : List (List Char) → Rows → Option Nat → Except PErr Rows
-  | [], rows, _ => .ok rows
+def fastaLines (sym : Char → Bool) : List (List Char) → Rows → Option Nat → Except LErr Rows
+  | [], rows, _ => pure rows
   | line :: ls, rows, cur =>
     let s := strip line
     if s.isEmpty then fastaLines sym ls rows cur
@@ -150,22 +166,28 @@ def fastaLines (sym : Char → Bool) : List (List Char) → Rows → Option Nat 
       | '>' :: nm =>
         let name := strip nm
         match rowIdx rows name with
-        | some _ => .error .data                                   -- repeated sequence name
+        | some _ => lperr .data                                   -- repeated sequence name
         | none =>
           match cur with
-          | some i => if (rows.getD i ([], 0)).2 == 0 then .error .data    -- expected sequence, found another name
-                      else fastaLines sym ls (rows ++ [(name, 0)]) (some rows.length)
+          | some i => do
+            let have_ ← cellsAt rows i
+            if have_ == 0 then lperr .data    -- expected sequence, found another name
+            else fastaLines sym ls (rows ++ [(name, 0)]) (some rows.length)
           | none => fastaLines sym ls (rows ++ [(name, 0)]) (some rows.length)
       | _ =>
         match cur with
-        | none => .error .data                                     -- sequence before any name
+        | none => lperr .data                                     -- sequence before any name
         | some i =>
           let cs := s.filter (fun c => !isPySpace c)
-          if cs.all sym then fastaLines sym ls (addCells rows i cs.length) cur else .error .data
+          if cs.all sym then do
+            let rows ← addCells rows i cs.length
+            fastaLines sym ls rows cur
+          else lperr .data
 
 def readFasta (sym : Char → Bool) (text : List Char) : MatRes :=
   match fastaLines sym (splitNl text) [] none with
-  | .error e => .err e
+  | .error (.parse e) => .err e
+  | .error (.internal w) => .internal w
   | .ok rows => .ok rows
 
 end DendroModel.C20
